@@ -92,6 +92,7 @@ fn body<'gc>(
         phase,
         constructing,
         colors: Default::default(),
+        res_allow: 0.0,
         reach0,
         clean0,
         rep: CbReport::default(),
